@@ -13,14 +13,14 @@ A loop without witness is reported with its header.
 """
 import re
 import facts as F
-from cfg import CFG
+from cfg import CFG, ccp_reachable, ccp_dominates
 from flow import Flow, last_seg
 
 LOOP_LIMIT = 1 << 16
 UNBOUNDED_ITERS = ("Repeat", "Cycle", "FromFn", "Successors", "RepeatWith", "RangeFrom")
 # functions that take at least one byte / token from a cursor or fail (skip_whitespace is not among them: it succeeds without moving when there
 # is nothing to skip)
-CONSUMERS = ("next", "next_expect", "next_as", "next_word", "next_lexeme", "next_hex_byte", "read_byte", "advance_pos",
+CONSUMERS = ("next", "next_expect", "next_as", "next_word", "next_lexeme", "next_hex_byte", "read_byte", "next_byte", "advance_pos",
              "parse_with_lexer", "parse_with_lexer_ctx", "_parse_with_lexer_ctx", "parse_indirect_object", "parse_indirect_stream", "read_u64_from_stream",
              "next_non_whitespace_char", "parse_stream_object", "parse_dictionary_object", "back", "seek_substr_back")
 CONSUMER_OWNERS = ("Lexer", "StringLexer", "HexStringLexer", "parser::", "parse_xref")
@@ -139,10 +139,69 @@ def loop_witness(f, b, cfg, head, body, taint):
                         st.append(s2)
         return True
 
+    def rewinds():
+        """a call inside the loop that puts the cursor back to a position fixed outside the loop (`lexer.set_pos(start)` with `start` taken before
+        the loop): whatever the turn consumed is given back, so consumption is no progress"""
+        for bi2, t2 in calls:
+            if last_seg(F.callee_name(t2)) in ("set_pos", "set_offset", "seek", "rewind", "reset") and any(o in F.callee_name(t2) for o in CONSUMER_OWNERS):
+                if len(t2["args"]) < 2:
+                    return t2
+                a2 = t2["args"][1]
+                l2 = F.op_local(a2)
+                if l2 is None:
+                    return t2           # a constant position
+                root = l2
+                for _ in range(6):
+                    ds2 = fl.defs.get(root, [])
+                    if len(ds2) == 1 and ds2[0][0] == "assign" and not ds2[0][3] and ds2[0][2][0] == "use" and F.op_place(ds2[0][2][1]) and len(F.op_place(ds2[0][2][1])) == 1:
+                        root = F.op_place(ds2[0][2][1])[0]
+                    else:
+                        break
+                ds2 = fl.defs.get(root, [])
+                if not any(d2[1] in body for d2 in ds2) and not (1 <= root <= b["argc"] and not ds2):
+                    return t2
+                if ds2 and not any(d2[1] in body for d2 in ds2):
+                    return t2
+        return None
+
+    def takes_input(t2):
+        """a reader whose amount is an argument (`read_u64_from_stream(width, data)`) consumes only when that amount is not zero: some test of a
+        sum containing the width against 0 has to decide, before the loop, whether the loop is reached"""
+        if last_seg(F.callee_name(t2)) != "read_u64_from_stream":
+            return True
+        from linear import linear
+        w = linear(fl, t2["args"][0]) if t2["args"] else None
+        if w is None:
+            return False
+        if not w[0] and w[1] >= 1:
+            return True
+        watoms = {k_ for k_, v_ in w[0].items() if v_ > 0}
+        # (the test may sit in a private helper: `let entry_len = xref_entry_len(w0, w1, w2)?` - read it in place)
+        from inline import inlined
+        nb = inlined(f, b)
+        nfl, ncfg = (fl, cfg) if nb is b else (Flow(nb), CFG(nb))
+        for i2, bb2 in enumerate(nb["blocks"]):
+            if bb2["term"]["k"] != "switch" or i2 in body:
+                continue
+            if not (ncfg.dominates(i2, head) or (nb is not b and ccp_dominates(nb, i2, head))):
+                continue
+            for st2 in bb2["stmts"]:
+                if st2[0] == "assign" and st2[2][0] == "binop" and st2[2][1] in ("Eq", "Ne", "Gt", "Lt", "Ge", "Le") and F.op_local(bb2["term"]["discr"]) == st2[1][0]:
+                    for side, other in ((st2[2][2], st2[2][3]), (st2[2][3], st2[2][2])):
+                        if F.const_int(other) in (0, 1) and side[0] in ("copy", "move"):
+                            lf = linear(nfl, side)
+                            # (in the inlined form the helper's Err flows on to the `?` of the caller: follow the variant)
+                            decides = any(x is not None and head not in ccp_reachable(nb, x, avoid={i2}) for x in ncfg.succ[i2])
+                            if lf and watoms and watoms <= {k_ for k_, v_ in lf[0].items() if v_ > 0} and decides:
+                                return True
+        return False
+
     def consumed():
         es = set()
+        if rewinds() is not None:
+            return es
         for bi2, t2 in calls:
-            if is_consumer(t2):
+            if is_consumer(t2) and takes_input(t2):
                 es |= progress_edges(b, cfg, fl, t2, body)
         return es
 
@@ -173,12 +232,12 @@ def loop_witness(f, b, cfg, head, body, taint):
                     eo = a[3][2][names.index("end")]
                     end_val = taint.operand(b, eo)
                     el = F.op_local(eo)
-                    end_guarded = end_val.g or (el is not None and taint.guarded(b, a[2], el))
+                    end_guarded = end_val.g or (el is not None and taint.guarded(b, a[2], el, upper=True))
             if a[0] == "call" and last_seg(a[1]) == "new" and "RangeInclusive" in a[1]:
                 eo = a[3]["args"][1]
                 end_val = taint.operand(b, eo)
                 el = F.op_local(eo)
-                end_guarded = end_val.g or (el is not None and taint.guarded(b, a[2], el))
+                end_guarded = end_val.g or (el is not None and taint.guarded(b, a[2], el, upper=True))
         if end_val is None:
             return "range", "numeric range (end not recovered; type-bounded %s)" % m.group(2)
         if not end_val.taint:
